@@ -105,7 +105,8 @@ def reset():
 class ScriptedPeer(object):
     """Reactive fake SMTP/LMTP server behind the client's socket.  For every
     stage it asks `script(stage, index)` for one of:
-        ('reply', code, [lines])   ('close',)   ('stall',)   ('garbage', bytes)
+        ('reply', code, [lines][, unsolicited bytes sent with the reply])
+        ('close',)   ('stall',)   ('garbage', bytes)
     Stages: banner EHLO HELO LHLO STARTTLS AUTH MAIL RCPT DATA EOD RSET QUIT
     NOOP other.  It implements the SMTP framing automaton (DATA content up to
     the lone dot when it answered DATA with 354; LMTP: one EOD stage per RCPT
@@ -157,6 +158,8 @@ class ScriptedPeer(object):
                     (ln.encode('utf-8') if not isinstance(ln, bytes)
                      else ln) + b'\r\n'
             self._say(wire)
+            if len(a) > 3:
+                self._say(a[3])     # unsolicited bytes, in their own segment
             return code
         if a[0] == 'close':
             self.server.close()
